@@ -49,3 +49,100 @@ Proof.
     + right. match goal with D : den _ (Chr NOT_DIGIT) _ _ |- _ => inversion D; subst end. eexists. split; [eassumption|assumption].
     + left. match goal with D : den _ Eol _ _ |- _ => inversion D; subst end. assumption.
 Qed.
+
+(* ======== the other half: a listed numeral standing as a whole number IS matched, as a whole ======== *)
+Require Ipv4Token.
+Lemma lang_lit_self (n : list chr) : lang (lit_rx n) n.
+Proof.
+  induction n as [|c n IH]; cbn [lit_rx fold_right]; [constructor|]. fold (lit_rx n). change (c :: n) with ([c] ++ n). constructor; [|exact IH].
+  constructor. cbn [in_cset existsb fst snd xorb]. rewrite orb_false_r, N.leb_refl. reflexivity.
+Qed.
+Lemma lang_alt_in (nums : list (list chr)) n : In n nums -> lang (alt_of (map lit_rx nums)) n.
+Proof.
+  induction nums as [|m [|m2 nums] IH]; intro H; [destruct H| |].
+  - destruct H as [<-|[]]. cbn [map alt_of]. apply lang_lit_self.
+  - cbn [map alt_of]. destruct H as [<-|H]; [apply LAltL, lang_lit_self|apply LAltR, IH, H].
+Qed.
+Lemma wfr_lit n : wfr (lit_rx n) = true.
+Proof. induction n as [|c n IH]; cbn [lit_rx fold_right wfr]; [reflexivity|]. fold (lit_rx n). exact IH. Qed.
+Lemma wfr_alt_of (nums : list (list chr)) : wfr (alt_of (map lit_rx nums)) = true.
+Proof. induction nums as [|n [|m nums] IH]; cbn [map alt_of wfr]; [reflexivity|apply wfr_lit|]. rewrite wfr_lit. exact IH. Qed.
+
+Lemma ms_LA_nd (s : list chr) j c : (eol s j = true \/ exists x, nth_error s j = Some x /\ in_cset x NOT_DIGIT = true) ->
+  In (j, c) (ms s (Look true false 0 (Alt (Chr NOT_DIGIT) Eol)) j c).
+Proof.
+  intro H. cbn [ms].
+  assert (E : existsb (fun _ : nat * caps => true) ((match nth_error s j with Some x => if in_cset x NOT_DIGIT then [(S j, c)] else [] | None => [] end) ++ (if eol s j then [(j, c)] else [])) = true).
+  { destruct H as [H|(x & Hx & Ex)]; [rewrite H; rewrite existsb_app; cbn [existsb]; now rewrite orb_true_r|rewrite Hx, Ex; reflexivity]. }
+  rewrite E. now left.
+Qed.
+
+Theorem as_token_is_matched (s : list chr) (nums : list (list chr)) (n : list chr) i c :
+  In n nums -> occ s n i ->
+  (i = 0 \/ (1 <= i /\ exists x, nth_error s (i - 1) = Some x /\ in_cset x NOT_DIGIT = true)) ->
+  (eol s (i + length n) = true \/ exists x, nth_error s (i + length n) = Some x /\ in_cset x NOT_DIGIT = true) ->
+  exists c', In (i + length n, c') (ms s (as_rx nums) i c).
+Proof.
+  intros Hin O B A. unfold as_rx.
+  destruct (lang_ms s _ (pure_alt_of nums) (wfr_alt_of nums) n i c (lang_alt_in nums n Hin) O) as (c1 & H1).
+  eexists. cbn [ms]. apply in_flat_map. exists (i, c). split.
+  - apply in_or_app. destruct B as [->|(Hi & x & Hx & Ex)].
+    + right. cbn [Nat.leb Nat.sub Nat.eqb existsb fst xorb orb]. now left.
+    + left. replace (Nat.leb 1 i) with true by (symmetry; apply Nat.leb_le; exact Hi). rewrite Hx, Ex. cbn [existsb fst orb xorb].
+      replace (Nat.eqb (S (i - 1)) i) with true by (symmetry; apply Nat.eqb_eq; lia). now left.
+  - cbn [fst snd]. apply in_flat_map. eexists (i + length n, _). split.
+    + apply in_map_iff. exists (i + length n, c1). split; [reflexivity|exact H1].
+    + cbn [fst snd]. apply ms_LA_nd. exact A.
+Qed.
+
+(* ASCII digits are not \D *)
+Lemma digit_is_not_nondigit x : is_digit x = true -> in_cset x NOT_DIGIT = false.
+Proof.
+  unfold is_digit. intro H. apply andb_true_iff in H as [H1 H2]. apply N.leb_le in H1, H2.
+  assert (Hx : In x [48;49;50;51;52;53;54;55;56;57]%N).
+  { assert (E : (x = 48 \/ x = 49 \/ x = 50 \/ x = 51 \/ x = 52 \/ x = 53 \/ x = 54 \/ x = 55 \/ x = 56 \/ x = 57)%N) by lia. cbn [In]. intuition. }
+  cbn [In] in Hx. repeat (destruct Hx as [<-|Hx]; [vm_compute; reflexivity|]). destruct Hx.
+Qed.
+Lemma nl_is_nondigit : in_cset 10%N NOT_DIGIT = true. Proof. vm_compute. reflexivity. Qed.
+
+Theorem as_match_at_a_listed_number_covers_exactly_it (s : list chr) (nums : list (list chr)) (n : list chr) i c :
+  nums <> [] -> Forall (fun m => forallb is_digit m = true) nums -> In n nums -> occ s n i -> i <= length s ->
+  (eol s (i + length n) = true \/ exists x, nth_error s (i + length n) = Some x /\ in_cset x NOT_DIGIT = true) ->
+  forall j c', In (j, c') (ms s (as_rx nums) i c) -> j = i + length n.
+Proof.
+  intros Hne Hd Hin O Hi A j c' H.
+  pose proof (ms_den s _ _ _ _ _ H) as D. destruct (den_bounds s _ _ _ D) as [Hij Hj]. specialize (Hj Hi).
+  destruct (as_match_is_a_listed_whole_number s nums i c j c' Hne Hi H) as (M & _ & R).
+  rewrite Forall_forall in Hd. pose proof (Hd _ M) as Dm. pose proof (Hd _ Hin) as Dn. rewrite forallb_forall in Dm, Dn.
+  destruct (Nat.lt_trichotomy j (i + length n)) as [Hlt|[->|Hgt]]; [exfalso|reflexivity|exfalso].
+  - destruct (nth_error n (j - i)) as [x|] eqn:Ex; [|apply nth_error_None in Ex; lia].
+    pose proof (O _ _ Ex) as Sx. replace (i + (j - i)) with j in Sx by lia.
+    pose proof (digit_is_not_nondigit x (Dn x (nth_error_In _ _ Ex))) as Nx.
+    destruct R as [R|(y & Hy & Ey)]; [|congruence].
+    unfold eol, Rx.slen in R. apply orb_true_iff in R as [R|R]; [apply Nat.eqb_eq in R; assert (j < length s) by (apply nth_error_Some; congruence); lia|].
+    apply andb_true_iff in R as [_ R]. rewrite Sx in R.
+    assert (x = 10%N) by (destruct x as [|p]; [discriminate|]; destruct p as [p|p|]; try discriminate; destruct p as [p|p|]; try discriminate;
+                          destruct p as [p|p|]; try discriminate; destruct p as [p|p|]; try discriminate; reflexivity). subst x.
+    rewrite nl_is_nondigit in Nx. discriminate.
+  - destruct A as [A|(y & Hy & Ey)].
+    + unfold eol, Rx.slen in A. apply orb_true_iff in A as [A|A]; [apply Nat.eqb_eq in A; lia|]. apply andb_true_iff in A as [A1 A2]. apply Nat.eqb_eq in A1.
+      destruct (nth_error s (i + length n)) as [y|] eqn:Hy; [|discriminate].
+      assert (y = 10%N) by (destruct y as [|p]; [discriminate|]; destruct p as [p|p|]; try discriminate; destruct p as [p|p|]; try discriminate;
+                            destruct p as [p|p|]; try discriminate; destruct p as [p|p|]; try discriminate; reflexivity). subst y.
+      pose proof (Dm _ (Ipv4Token.in_sub s i j (i + length n) 10%N ltac:(lia) Hgt Hj Hy)) as N10. discriminate.
+    + pose proof (digit_is_not_nondigit y (Dm _ (Ipv4Token.in_sub s i j (i + length n) y ltac:(lia) Hgt Hj Hy))) as Ny. congruence.
+Qed.
+
+Theorem as_engine_replaces_the_whole_number (s : list chr) (nums : list (list chr)) (n : list chr) i :
+  Forall (fun m => forallb is_digit m = true) nums -> In n nums -> occ s n i -> i <= length s ->
+  (i = 0 \/ (1 <= i /\ exists x, nth_error s (i - 1) = Some x /\ in_cset x NOT_DIGIT = true)) ->
+  (eol s (i + length n) = true \/ exists x, nth_error s (i + length n) = Some x /\ in_cset x NOT_DIGIT = true) ->
+  exists c', match_at s (as_rx nums) i = Some (i + length n, c').
+Proof.
+  intros Hd Hin O Hi B A. destruct (as_token_is_matched s nums n i [] Hin O B A) as (c1 & H1).
+  assert (Hne : nums <> []) by (intros ->; destruct Hin).
+  unfold match_at. rewrite m_is_first_of_ms.
+  destruct (ms s (as_rx nums) i []) as [|[j cj] l] eqn:E; [destruct H1|]. cbn [first_some].
+  assert (j = i + length n) by (apply (as_match_at_a_listed_number_covers_exactly_it s nums n i [] Hne Hd Hin O Hi A j cj); rewrite E; now left).
+  subst j. now exists cj.
+Qed.
